@@ -31,6 +31,9 @@ type c15Call struct {
 	Fail   bool
 	BadID  bool // hasMember answers 400 "Invalid Input: memberKey" (an account outside the domain)
 	Inside []*c15Call
+	Pages  int // a member listing delivered in this many pages (0 = one)
+	// FailPage: the page (1-based) whose request fails, 0 = none
+	FailPage int
 }
 
 type c15DirTransport struct {
@@ -58,7 +61,15 @@ func (t *c15DirTransport) RoundTrip(r *http.Request) (*http.Response, error) {
 	case call.BadID && strings.Contains(r.URL.Path, "/hasMember/"):
 		code, body = 400, `{"error":{"code":400,"message":"Invalid Input: memberKey","errors":[{"message":"Invalid Input: memberKey","domain":"global","reason":"invalid"}]}}`
 	case strings.HasSuffix(r.URL.Path, "/members"):
-		body = `{"members":[{"email":"u@corp.test","role":"MEMBER","type":"USER"}]}`
+		page := 1
+		fmt.Sscanf(r.URL.Query().Get("pageToken"), "page-%d", &page)
+		body = fmt.Sprintf(`{"members":[{"email":"u%d@corp.test","role":"MEMBER","type":"USER"}]}`, page)
+		if page < call.Pages {
+			body = fmt.Sprintf(`{"members":[{"email":"u%d@corp.test","role":"MEMBER","type":"USER"}],"nextPageToken":"page-%d"}`, page, page+1)
+		}
+		if call.FailPage == page {
+			code, body = 500, `{"error":{"code":500,"message":"backend error"}}`
+		}
 	case strings.Contains(r.URL.Path, "/members/"):
 		body = `{"email":"u@corp.test","role":"MEMBER","type":"USER"}`
 	}
@@ -86,6 +97,9 @@ func c15RunProvider(c *fw.Ctx) {
 		// the directory's other endpoint (the member listing that fills the group cache): one directory, one breaker
 		"directory-listing-answers": func() *c15Call { return &c15Call{List: true} },
 		"directory-listing-fails":   func() *c15Call { return &c15Call{List: true, Fail: true} },
+		// a listing long enough to come in pages: every page is a directory call of its own
+		"directory-listing-in-two-pages":            func() *c15Call { return &c15Call{List: true, Pages: 2} },
+		"directory-listing-whose-second-page-fails": func() *c15Call { return &c15Call{List: true, Pages: 2, FailPage: 2} },
 		// three questions in flight at once (one inside the other)
 		"three-questions-nested": func() *c15Call { return &c15Call{Inside: []*c15Call{{Inside: []*c15Call{leaf()}}}} },
 		// a slow question during which six others are answered one after the other, and then two more at once
@@ -94,7 +108,7 @@ func c15RunProvider(c *fw.Ctx) {
 		},
 	}
 	names := []string{"validation-accepted", "validation-refused", "directory-answers", "directory-fails", "directory-rejects-the-member-key", "directory-listing-answers", "directory-listing-fails",
-		"back-off-passes", "three-questions-nested", "six-answered-during-a-slow-one-then-two-at-once"}
+		"directory-listing-in-two-pages", "directory-listing-whose-second-page-fails", "back-off-passes", "three-questions-nested", "six-answered-during-a-slow-one-then-two-at-once"}
 	depth := 5
 	params := c15Params{N: 2, Trip: 3, Reset: 6} // the provider's own settings (google.go)
 	drive(c, "provider/google-directory-breaker", -1, func(x *explore.Exec, owned bool) {
